@@ -128,7 +128,8 @@ func (u *Unit) heap(st *State, name string, sort Sort) Term {
 	first := !u.s.declared["c:"+name+"@0"]
 	c := u.s.declConst(name+"@0", sort)
 	if first {
-		u.initialHeapWellFormed(name, c, sort)
+		u.s.declConst("alloc@0", SInt)
+		u.heapWellFormed(name, c, sort, "alloc@0", "true", true)
 	}
 	return c
 }
@@ -136,9 +137,14 @@ func (u *Unit) heap(st *State, name string, sort Sort) Term {
 // initialHeapWellFormed: every reference stored in the heap at unit entry designates an object that
 // already exists (no dangling "future" references): needed to carry facts about old objects across
 // allocations.
-func (u *Unit) initialHeapWellFormed(name string, c Term, sort Sort) {
-	a0 := "alloc@0"
-	u.s.declConst(a0, SInt)
+func (u *Unit) heapWellFormed(name string, c Term, sort Sort, a0 Term, guard Term, global bool) {
+	assume := func(f Term) {
+		if global {
+			u.s.assumeGlobal(f)
+		} else {
+			u.s.assume(implies(guard, f))
+		}
+	}
 	wf := func(v Term, srt string) Term {
 		switch srt {
 		case "Slc":
@@ -158,21 +164,21 @@ func (u *Unit) initialHeapWellFormed(name string, c Term, sort Sort) {
 		if _, inner, ok := arraySorts(s); ok {
 			if _, el, ok := arraySorts(inner); ok {
 				if f := wf("(select (select "+c+" b) i)", el); f != "true" {
-					u.s.assumeGlobal(fmt.Sprintf("(forall ((b Int) (i Int)) (! %s :pattern ((select (select %s b) i))))", f, c))
+					assume(fmt.Sprintf("(forall ((b Int) (i Int)) (! %s :pattern ((select (select %s b) i))))", f, c))
 				}
 			}
 		}
 	case strings.HasPrefix(name, "H$") || strings.HasPrefix(name, "HB$"):
 		if _, el, ok := arraySorts(s); ok {
 			if f := wf("(select "+c+" r)", el); f != "true" {
-				u.s.assumeGlobal(fmt.Sprintf("(forall ((r Int)) (! %s :pattern ((select %s r))))", f, c))
+				assume(fmt.Sprintf("(forall ((r Int)) (! %s :pattern ((select %s r))))", f, c))
 			}
 		}
 	case strings.HasPrefix(name, "HMv$"):
 		if _, inner, ok := arraySorts(s); ok {
 			if ks, el, ok := arraySorts(inner); ok {
 				if f := wf("(select (select "+c+" m) k)", el); f != "true" {
-					u.s.assumeGlobal(fmt.Sprintf("(forall ((m Int) (k %s)) (! %s :pattern ((select (select %s m) k))))", ks, f, c))
+					assume(fmt.Sprintf("(forall ((m Int) (k %s)) (! %s :pattern ((select (select %s m) k))))", ks, f, c))
 				}
 			}
 		}
@@ -1092,6 +1098,16 @@ func (u *Unit) cutHeader(fn *ssa.Function, n *node, st *State, top bool) *State 
 		u.heapSort["alloc"] = SInt
 		out.heaps["alloc"] = na
 		u.s.assume(implies(out.reach, sx(">=", na, oldAlloc)))
+		if !u.pass1 {
+			for k, rec := range u.loopMods[loopKey(fn, l.ordinal)] {
+				if k == "alloc" {
+					continue
+				}
+				if h, ok := out.heaps[k]; ok {
+					u.heapWellFormed(k, h, rec.sort, na, out.reach, false)
+				}
+			}
+		}
 	}
 	for _, ins := range n.b.Instrs {
 		p, ok := ins.(*ssa.Phi)
